@@ -16,8 +16,9 @@ RULE = (
     "the model's state differs from a default-constructed model's (parameters perturbed or trained)"
     "; pass 5: priors registered by parameter name and by a module-level closure; copies first looked at only after the original has moved; copies' objectives after the original moved"
     '; pass 6: exact Kronecker multitask and lazily constructed RFF families; checkpoints are not modified by loading them (second load of other values, third load back); used variational models reset to a checkpoint taken before their first call'
+    "; pass 7: checkpoints of the un-whitened era (no `updated_strategy` key) loaded into strategies with their own jitter_val / under a jitter setting: q(f) equals the dense un-whitened posterior of the stored (m, S); re-saved checkpoint reproduces it"
 )
-REQUIRED = ["state_dict_roundtrip", "pickle_roundtrip", "deepcopy_roundtrip", "objective_roundtrip", "prior_params_carried"]
+REQUIRED = ["state_dict_roundtrip", "pickle_roundtrip", "deepcopy_roundtrip", "objective_roundtrip", "prior_params_carried", "legacy_checkpoint"]
 ASSUMPTIONS = ["pickle/deepcopy of an object are compared with the original at 1e-9 (caches may be recomputed), state_dict round trip at 1e-7"]
 ANCHOR_FILES = ["gpytorch/module.py", "gpytorch/models/", "gpytorch/kernels/", "gpytorch/priors/", "gpytorch/constraints/", "gpytorch/variational/"]
 
@@ -40,6 +41,114 @@ def cases(tier, seed):
     for fam in ("svgp_whitened", "svgp_unwhitened", "svgp_meanfield", "svgp_batch_decoupled", "natural"):
         for seq in ([], ["pred"], ["train_step", "pred"]):
             yield {"family": fam, "kind": "reset_uninitialised", "seq": seq, "mseed": rnd.randrange(1000)}
+    # checkpoints of the un-whitened era (no `updated_strategy` key), strategies with their own jitter
+    for rep in range(1 if tier == "quick" else 12):
+        for jv in (None, 1e-4, 1e-2):
+            for vd in ("cholesky", "meanfield"):
+                for setting in (None, 1e-3):
+                    yield {"family": "legacy", "kind": "legacy_checkpoint", "seq": [], "jitter_val": jv, "vd": vd, "setting": setting, "batch": rnd.choice([[], [], [2]]), "M": rnd.choice([4, 7]), "prior_first": rnd.random() < 0.3, "mseed": rnd.randrange(10**6)}
+
+
+class _LegacyModel(__import__("gpytorch").models.ApproximateGP):
+    """SVGP with an explicit strategy jitter (module level so that it pickles)"""
+
+    def __init__(self, Z, jitter_val, vd):
+        import gpytorch
+
+        V = gpytorch.variational
+        q = (V.CholeskyVariationalDistribution if vd == "cholesky" else V.MeanFieldVariationalDistribution)(Z.size(-2), batch_shape=Z.shape[:-2])
+        super().__init__(V.VariationalStrategy(self, Z, q, learn_inducing_locations=True, jitter_val=jitter_val))
+        self.mean_module = gpytorch.means.ConstantMean(batch_shape=Z.shape[:-2])
+        self.covar_module = gpytorch.kernels.ScaleKernel(gpytorch.kernels.RBFKernel(batch_shape=Z.shape[:-2]), batch_shape=Z.shape[:-2])
+
+    def forward(self, x):
+        import gpytorch
+
+        return gpytorch.distributions.MultivariateNormal(self.mean_module(x), self.covar_module(x))
+
+
+def _legacy_checkpoint(case, ctx):
+    """a checkpoint written by a version that stored q(u) = N(m, S) un-whitened (no `updated_strategy` key) is converted at the
+    first call: the restored model's q(f) is the dense un-whitened SVGP posterior for (m, S) with the strategy's OWN K_ZZ
+    factor (explicit jitter_val, jitter setting in force at the call), and saving / reloading it afterwards changes nothing"""
+    import copy
+    import warnings
+
+    import torch
+
+    import gpytorch
+    from vf import util
+
+    g = util.gen(case["mseed"])
+    b = case["batch"]
+    M, n = case["M"], 7
+    Z = util.randn(g, *b, M, 2)
+    X = util.randn(g, *b, n, 2)
+    jv = case["jitter_val"]
+    src = _LegacyModel(Z.clone(), jv, case["vd"])
+    util.randomize(src, g, 0.4)
+    m = util.randn(g, *b, M)
+    if case["vd"] == "cholesky":
+        Ls = torch.tril(util.randn(g, *b, M, M)) * 0.3 + torch.diag_embed(0.5 + util.rand(g, *b, M))
+        S = Ls @ Ls.transpose(-1, -2)
+    else:
+        sd_ = 0.3 + util.rand(g, *b, M)
+        S = torch.diag_embed(sd_**2)
+    sd = {k: v.clone() for k, v in src.state_dict().items() if not k.endswith("updated_strategy")}
+    sd["variational_strategy._variational_distribution.variational_mean"] = m.clone()
+    if case["vd"] == "cholesky":
+        sd["variational_strategy._variational_distribution.chol_variational_covar"] = Ls.clone()
+    else:
+        sd["variational_strategy._variational_distribution._variational_stddev"] = sd_.clone()
+    sd["variational_strategy.variational_params_initialized"] = torch.tensor(1)
+    kept = {k: v.clone() for k, v in sd.items()}
+    ctxs = case["setting"]
+
+    def _S():
+        import contextlib
+
+        if ctxs is None:
+            return contextlib.nullcontext()
+        return gpytorch.settings.variational_cholesky_jitter(float_value=ctxs, double_value=ctxs)
+
+    fresh = _LegacyModel(util.randn(g, *b, M, 2), jv, case["vd"])
+    with warnings.catch_warnings(record=True) as w:
+        warnings.simplefilter("always")
+        fresh.load_state_dict(sd)
+    ctx.expect("legacy_checkpoint", any("previous version" in str(x.message) for x in w), "loading a checkpoint without the `updated_strategy` key did not warn", mech="legacy")
+    fresh.eval()
+    with torch.no_grad(), _S():
+        eff = jv if jv is not None else (ctxs if ctxs is not None else 1e-6)
+        Zs = sd["variational_strategy.inducing_points"]
+        src2 = src.eval()
+        Kzz = src2.covar_module(Zs).to_dense() + eff * torch.eye(M)
+        Kzx = src2.covar_module(Zs, X).to_dense()
+        Kxx = src2.covar_module(X).to_dense() + eff * torch.eye(n)
+        mz, mx = src2.mean_module(Zs), src2.mean_module(X)
+        A = torch.linalg.solve(Kzz, Kzx)
+        ref_mean = mx + (A.transpose(-1, -2) @ (m - mz).unsqueeze(-1)).squeeze(-1)
+        ref_cov = Kxx + A.transpose(-1, -2) @ (S - Kzz) @ A
+        if case["prior_first"]:
+            fresh(X, prior=True)
+        out = fresh(X)
+        ctx.close("legacy_checkpoint", out.mean, ref_mean, (1e-7, 1e-7), cls="mean", mech="legacy", jitter_val=jv)
+        ctx.close("legacy_checkpoint", out.covariance_matrix, ref_cov, (1e-7, 1e-7), cls="covar", mech="legacy", jitter_val=jv, part="covar")
+        out2 = fresh(X)
+        ctx.close("legacy_checkpoint", out2.covariance_matrix, ref_cov, (1e-7, 1e-7), cls="second_call", mech="legacy", jitter_val=jv, part="covar")
+        # re-saved: new-style checkpoint reproduces the same q(f) in another fresh model, without a second conversion
+        sd2 = copy.deepcopy(fresh.state_dict())
+        ctx.expect("legacy_checkpoint", bool(sd2["variational_strategy.updated_strategy"]), "the re-saved checkpoint is not marked as converted", mech="legacy")
+        again = _LegacyModel(util.randn(g, *b, M, 2), jv, case["vd"])
+        again.load_state_dict(sd2)
+        again.eval()
+        out3 = again(X)
+        ctx.close("state_dict_roundtrip", out3.mean, ref_mean, (1e-7, 1e-7), cls="legacy_resaved_mean", mech="legacy", jitter_val=jv)
+        ctx.close("state_dict_roundtrip", out3.covariance_matrix, ref_cov, (1e-7, 1e-7), cls="legacy_resaved_covar", mech="legacy", jitter_val=jv, part="covar")
+        # whatever the conversion made of the checkpoint, re-saving and re-loading reproduces THAT model exactly
+        ctx.close("state_dict_roundtrip", torch.cat([out3.mean.reshape(-1), out3.covariance_matrix.reshape(-1)]), torch.cat([out.mean.reshape(-1), out.covariance_matrix.reshape(-1)]), (1e-9, 1e-9), cls="legacy_resaved_vs_converted", mech="legacy", jitter_val=jv)
+    same = all(torch.equal(sd[k], kept[k]) for k in kept)
+    ctx.expect("checkpoint_not_modified_by_loading", same, "the legacy checkpoint's tensors changed while it was loaded / converted", mech="legacy")
+    ctx.cell({k_: v_ for k_, v_ in case.items() if k_ != "mseed"}, nontrivial=True)
 
 
 class _FixedZModel(__import__("gpytorch").models.ApproximateGP):
@@ -208,6 +317,8 @@ def run_case(case, ctx):
 
     if case["family"] == "modellist":
         return _modellist(case, ctx)
+    if case.get("kind") == "legacy_checkpoint":
+        return _legacy_checkpoint(case, ctx)
     if case.get("kind") == "reset_uninitialised":
         return _reset_uninitialised(case, ctx)
     fam = _fams()[case["family"]](case["mseed"])
@@ -435,4 +546,9 @@ def _deepcopy_grad_caches(case, fl):
     return fl.get("mech") == "deepcopy" and fl.get("mechanism") == "raise" and "graph leaves" in fl.get("detail", "")
 
 
-MATCHERS = {"C18-deepcopy-with-grad-caches": _deepcopy_grad_caches}
+def _legacy_meanfield(case, fl):
+    """un-whitened mean-field checkpoints: the whitened mean-field family cannot hold the stored covariance"""
+    return case.get("kind") == "legacy_checkpoint" and case.get("vd") == "meanfield" and fl.get("mech") == "legacy" and fl.get("part") == "covar"
+
+
+MATCHERS = {"C18-deepcopy-with-grad-caches": _deepcopy_grad_caches, "C18-legacy-meanfield-checkpoint-projected": _legacy_meanfield}
